@@ -19,6 +19,11 @@ pub fn build_tl(cfg: &Value, pd: i64, pmap: &[usize], s: i64) -> P4Timeline {
     config_tl(cfg, pd, pmap, s).build()
 }
 
+/// Scale applied to the values of the float properties (1.0 normally; 2^121 in the extreme-value pass).
+pub static VSCALE_BITS: std::sync::atomic::AtomicU32 = std::sync::atomic::AtomicU32::new(0x3f80_0000);
+pub fn vscale() -> f32 { f32::from_bits(VSCALE_BITS.load(std::sync::atomic::Ordering::Relaxed)) }
+pub fn set_vscale(v: f32) { VSCALE_BITS.store(v.to_bits(), std::sync::atomic::Ordering::Relaxed); }
+
 /// The un-built builder (TimelineConfiguration) for the same description.
 pub fn config_tl(cfg: &Value, pd: i64, pmap: &[usize], s: i64) -> TimelineConfiguration<P4KeyframeData> {
     let tm = &cfg["tm"];
@@ -34,7 +39,7 @@ pub fn config_tl(cfg: &Value, pd: i64, pmap: &[usize], s: i64) -> TimelineConfig
         for (i, d) in kf["d"].as_array().unwrap().iter().enumerate() {
             if let Some(v) = d.as_array().unwrap().first() {
                 let v = v.as_i64().unwrap();
-                k = match pmap[i] { 1 => k.x(v as f32), 2 => k.y(v as f32), 3 => k.n(v as i32), 4 => k.m(v as i16), _ => unreachable!() };
+                k = match pmap[i] { 1 => k.x(v as f32 * vscale()), 2 => k.y(v as f32 * vscale()), 3 => k.n(v as i32), 4 => k.m(v as i16), _ => unreachable!() };
             }
         }
         let e = kf["e"].as_i64().unwrap();
@@ -51,7 +56,7 @@ pub fn start_values(ov: &Value, pmap: &[usize]) -> Option<P4> {
     let mut v = P4 { x: 501.0, y: 502.0, n: 503, m: 504, k: 505.0, tag: None };
     for (i, o) in arr.iter().enumerate() {
         let t = &o.as_array().unwrap()[0];
-        v.set(pmap[i], eval_term(t).v);
+        v.set(pmap[i], eval_term(t).v * if pmap[i] <= 2 { vscale() as f64 } else { 1.0 });
     }
     Some(v)
 }
@@ -85,7 +90,8 @@ pub fn check_fields(tally: &mut Tally, lineno: usize, s: i64, t: i64, target: &P
         let c = cls.map(|c| c[i].as_str().unwrap_or("?").to_string()).unwrap_or_else(|| "?".into());
         *tally.by_class.entry(c.clone()).or_insert(0) += 1;
         tally.evals += 1;
-        if !agrees_any(alts, got, P4::is_int(p), SENT.get(p)) {
+        let ok = if vscale() != 1.0 && !P4::is_int(p) { agrees_any_scaled(alts, got, SENT.get(p), vscale() as f64) } else { agrees_any(alts, got, P4::is_int(p), SENT.get(p)) };
+        if !ok {
             tally.miss(json!({"line": lineno, "scale": s, "t": t, "prop": p, "class": c, "expected": alts, "got": got, "what": what}));
         }
     }
@@ -147,6 +153,28 @@ pub fn replay_tl_line(tally: &mut Tally, lineno: usize, line: &Value, scales: &[
             Ok(local) => tally.absorb(local),
             Err(e) => { let msg = e.downcast_ref::<String>().cloned().or_else(|| e.downcast_ref::<&str>().map(|s| s.to_string())).unwrap_or_default();
                         tally.miss(json!({"line": lineno, "scale": s, "class": "panic", "panic": msg})); }
+        }
+    }
+    // extreme but finite values: the same behaviour with every float value multiplied by 2^121 (values up to
+    // +-2.9e38, differences beyond f32::MAX)
+    {
+        // the largest power of two that keeps every value finite (|v| * scale <= 3e38)
+        let mut maxabs = 1.0f64;
+        for kf in line["kfs"].as_array().unwrap() { for d in kf["d"].as_array().unwrap() { if let Some(v) = d.as_array().unwrap().first() { maxabs = maxabs.max(v.as_i64().unwrap().abs() as f64); } } }
+        for o in line["ov"].as_array().unwrap() { if let Some(tm) = o.as_array().unwrap().first() { maxabs = maxabs.max(eval_term(tm).v.abs()); } }
+        let exp = (3.0e38f64 / maxabs).log2().floor() as i32;
+        set_vscale((2.0f64).powi(exp) as f32);
+        let r = catch_unwind(AssertUnwindSafe(|| {
+            let mut local = Tally::new();
+            let mut tl = build_tl(line, pd, &pmap, 0);
+            if let Some(v) = start_values(&line["ov"], &pmap) { tl.start_with(&v); }
+            check_timeline(&mut local, lineno, 1000 + exp as i64, line, &tl, &|t| t as f32, &pmap);
+            local
+        }));
+        set_vscale(1.0);
+        match r {
+            Ok(local) => tally.absorb(local),
+            Err(_) => tally.miss(json!({"line": lineno, "scale": "values scaled towards f32::MAX", "class": "panic"})),
         }
     }
     for m in tally.mism.iter_mut().skip(before) {
